@@ -109,7 +109,12 @@ def bisection_rules(ctx, rid="R3"):
             it.run()
             rec = [any(c == key for c in r["calls"]) for r in it.records]
             res[single] = rec
-        if res[True] and res[False] and not any(res[True]) and all(res[False]):
+            if any(r.get("gave_up") for r in it.records) or it.steps > 20000:
+                res = None
+                break
+        if res is None:
+            ctx.undecided(o2, "the search is written as a loop: its paths are not enumerated")
+        elif res[True] and res[False] and not any(res[True]) and all(res[False]):
             ctx.ok(o2, "single node: no recursion; otherwise: recursion on every path")
         elif res[True] and any(res[True]) or (res[False] and not all(res[False])):
             ctx.bad(o2, "the single-node test at %s is inverted: with one node left the search recurses (for ever), with several it answers from "
